@@ -14,7 +14,7 @@ from runner import Case
 
 THEOREMS = [
     "C19.rt_levels", "C19.rt_midpoint", "C19.rt_siblings", "C19.rt_nonneg", "C19.rt_full_false",
-    "C19.rt_shape",
+    "C19.rt_shape", "Plot.gss_fuel_sufficient", "Plot.firstPass_good",
 ]
 PROOF_IMPORTS = ["BigtreeProofs.Properties.C19"]
 EPS = Fraction(1, 10**9)
@@ -41,11 +41,14 @@ MODELLED = [
     "Rounding error itself is not verified",
     "node attributes x/mod/shift/y are modelled as fields of an annotated rose tree; the in-place shift "
     "updates on not-yet-visited right siblings are modelled by the pending-shift vector of the sibling loop",
-    "the Python recursion of _get_subtree_shift is modelled with fuel = height of the left subtree + 1",
+    "the Python recursion of _get_subtree_shift is modelled with fuel = height of the left subtree + 1; "
+    "Plot.gss_fuel_sufficient proves that any larger fuel gives the same result (the out-of-fuel branch is dead)",
 ]
 ASSUMPTIONS = [
     "reingold_tilford is called on the root of a Node/BaseNode tree that carries no x/mod/shift attribute on "
     "entry (a second run re-uses the stale shift; DESIGN section 5)",
+    "BinaryNode trees are outside the domain: reingold_tilford raises AttributeError on every BinaryNode tree "
+    "(a binary leaf's children are (None, None) and _first_pass recurses into None); not generated",
     "separations are positive; offsets are non-negative (the theorems need no sign condition except "
     "0 < sibling_separation for the strict left-to-right order)",
 ]
